@@ -1176,7 +1176,7 @@ func (h *vfE2H) genOp(malformed bool) {
 		h.exec(fmt.Sprintf("fin %d %d", cn.k, held[r.Intn(len(held))]))
 	case pick < 615 && len(subs) > 0:
 		// requeue chain: the same message is requeued immediately several times by whoever holds it
-		cn := subs[r.Intn(len(subs))]
+		cn := h.pickHolder(subs)
 		held := h.heldBy(cn)
 		ch := h.chanOf(cn)
 		if len(held) == 0 || ch == nil {
@@ -1196,7 +1196,7 @@ func (h *vfE2H) genOp(malformed bool) {
 		}
 		h.count("gen:requeue-chain")
 	case pick < 690 && len(subs) > 0:
-		cn := subs[r.Intn(len(subs))]
+		cn := h.pickHolder(subs)
 		held := h.heldBy(cn)
 		if len(held) == 0 {
 			return
@@ -1207,7 +1207,7 @@ func (h *vfE2H) genOp(malformed bool) {
 		ds := []int64{0, 0, 0, 1, 20, 1000, h.cfg.maxreq, h.cfg.maxreq + 1, 1 << 40}
 		h.exec(fmt.Sprintf("req %d %d %d", cn.k, held[r.Intn(len(held))], ds[r.Intn(len(ds))]))
 	case pick < 730 && len(subs) > 0:
-		cn := subs[r.Intn(len(subs))]
+		cn := h.pickHolder(subs)
 		held := h.heldBy(cn)
 		if len(held) == 0 {
 			return
@@ -1293,6 +1293,22 @@ func (h *vfE2H) genOp(malformed bool) {
 	}
 }
 
+// pickHolder (audit A17, generator reach): REQ / TOUCH are only meaningful for a consumer that holds something —
+// prefer one (a uniformly drawn consumer holds nothing most of the time and the op was skipped)
+func (h *vfE2H) pickHolder(subs []*vfE2Conn) *vfE2Conn {
+	var hs []*vfE2Conn
+	for _, cn := range subs {
+		if len(h.heldBy(cn)) > 0 {
+			hs = append(hs, cn)
+		}
+	}
+	if len(hs) == 0 {
+		return subs[h.r.Intn(len(subs))]
+	}
+	h.count("gen:picked-holder")
+	return hs[h.r.Intn(len(hs))]
+}
+
 func (h *vfE2H) genSub(tp *vfE2Topic) {
 	r := h.r
 	c := 1 + r.Intn(3)
@@ -1325,8 +1341,9 @@ func (h *vfE2H) genSub(tp *vfE2Topic) {
 		mt = h.cfg.maxmtMs
 	}
 	sample := 0
-	if kind == "dur" && !hasSampler && h.cfg.maxrdy >= 1000 && r.Intn(8) == 0 {
-		sample = 1 + r.Intn(99)
+	if kind == "dur" && !hasSampler && h.cfg.maxrdy >= 1000 && r.Intn(4) == 0 {
+		// audit A17: more sampling consumers, biased to low rates (a message is dropped iff rand.Int31n(100) > rate)
+		sample = []int{1, 10, 50, 90, 1 + r.Intn(99)}[r.Intn(5)]
 	}
 	if tp.chans[c] == nil && !tp.paused && len(tp.pending) == 0 {
 		h.parkEphemeral(tp.sortedChans())
